@@ -375,6 +375,89 @@ func init() {
 	})
 }
 
+func init() {
+	register("replay-resub", "direction A: replay TLC-generated Resub.tla cases on the real re-subscribing operators", func(args []string) int {
+		fs := flag.NewFlagSet("replay-resub", flag.ExitOnError)
+		in := fs.String("in", "", "TLC output file")
+		out := fs.String("out", "", "result JSON")
+		modes := fs.String("modes", "sync,async", "attempt delivery modes")
+		_ = fs.Parse(args)
+		var mu sync.Mutex
+		var all []pipe.Mismatch
+		byClass := map[string]int{}
+		perKey := map[string]int{}
+		raw := map[int]json.RawMessage{}
+		var samples []json.RawMessage
+		nontrivial := 0
+		chains := map[string]bool{}
+		type job struct {
+			i int
+			c *pipe.RCase
+		}
+		jobs := make(chan job, 256)
+		var wg sync.WaitGroup
+		for w := 0; w < 16; w++ {
+			wg.Add(1)
+			go func() {
+				defer wg.Done()
+				for j := range jobs {
+					if atomic.LoadInt32(&hangs) >= maxHangs {
+						atomic.AddInt32(&skipped, 1) // circuit breaker: every hang costs a watchdog period and leaks a goroutine
+						continue
+					}
+					var res []pipe.Mismatch
+					for _, m := range strings.Split(*modes, ",") {
+						pipe.ReplayResub(j.i, j.c, m, &res)
+					}
+					nt := false
+					nt = len(j.c.Outs) >= 2
+					for _, m := range res {
+						if strings.HasSuffix(m.Class, "hang") {
+							atomic.AddInt32(&hangs, 1)
+						}
+					}
+					mu.Lock()
+					for _, m := range res {
+						byClass[m.Class]++
+						key := m.Class + "@" + m.Chain + "@" + m.Mode
+						perKey[key]++
+						if perKey[key] <= 6 {
+							all = append(all, m)
+							if len(raw) < 2000 {
+								raw[m.Case] = json.RawMessage(j.c.Raw)
+							}
+						}
+					}
+					if nt {
+						nontrivial++
+					}
+					chains[j.c.O.G] = true
+					if len(samples) < 3 && j.i%4999 == 0 {
+						samples = append(samples, json.RawMessage(j.c.Raw))
+					}
+					mu.Unlock()
+				}
+			}()
+		}
+		n, err := pipe.ReadRCases(*in, func(i int, c *pipe.RCase) { jobs <- job{i, c} })
+		close(jobs)
+		wg.Wait()
+		if err != nil {
+			fmt.Fprintln(os.Stderr, err)
+			return 2
+		}
+		summary := map[string]any{"cases": n, "replays": n * len(strings.Split(*modes, ",")), "nontrivial": nontrivial, "chains": len(chains),
+			"skipped_after_hangs": atomic.LoadInt32(&skipped), "mismatches": all, "by_class": byClass, "samples": samples, "raw": raw}
+		b, _ := json.Marshal(summary)
+		if err := os.WriteFile(*out, b, 0o644); err != nil {
+			fmt.Fprintln(os.Stderr, err)
+			return 2
+		}
+		fmt.Printf("{\"cases\": %d, \"mismatches\": %d}\n", n, len(all))
+		return 0
+	})
+}
+
 // syncable: the synchronous cold source can only play scripts without an Unsubscribe in the middle
 func syncable(c *pipe.Case) bool {
 	for i, st := range c.Steps {
